@@ -207,11 +207,18 @@ class SeqExtractor:
             b, d2 = self._block(s.orelse, pre, cls, owner, depth) if s.orelse else (pre, set())
             return a | b, d1 | d2
         if isinstance(s, (ast.For, ast.AsyncFor)):
+            # `reversed(X)`, `X[::-1]`, `list(X)` around the iterable: a literal sequence of operands is expanded in the iteration order actually written;
+            # for a child list the direction is the business of C20-LISTDIR (the events of the elements are the same either way)
+            it_expr, backwards = self._strip_direction(s.iter)
+            if it_expr is not s.iter:
+                s = ast.copy_location(ast.For(target=s.target, iter=it_expr, body=s.body, orelse=s.orelse, lineno=s.lineno), s)
             pre = self._apply_expr(s.iter, states, cls, owner, depth) if not self._is_subexpr_nodes(s.iter) else states
             out = set()
             for fenv, ev in pre:
                 env = dict(fenv)
                 elems = self._iter_elems(s.iter, env, cls)
+                if elems is not None and backwards:
+                    elems = list(elems)[::-1]
                 cur = {(fenv, ev)}
                 if elems is not None:
                     # literal sequence of aliases: expand in order
@@ -310,6 +317,20 @@ class SeqExtractor:
             for e in t.elts:
                 if isinstance(e, ast.Name):
                     env.pop(e.id, None)
+
+    @staticmethod
+    def _strip_direction(it):
+        backwards = False
+        while True:
+            if isinstance(it, ast.Call) and isinstance(it.func, ast.Name) and it.func.id == 'reversed' and len(it.args) == 1 and not it.keywords:
+                it, backwards = it.args[0], not backwards
+            elif isinstance(it, ast.Call) and isinstance(it.func, ast.Name) and it.func.id in ('list', 'tuple') and len(it.args) == 1 and not it.keywords:
+                it = it.args[0]
+            elif isinstance(it, ast.Subscript) and isinstance(it.slice, ast.Slice) and it.slice.lower is None and it.slice.upper is None and \
+                    isinstance(it.slice.step, ast.UnaryOp) and isinstance(it.slice.step.op, ast.USub) and isinstance(it.slice.step.operand, ast.Constant) and it.slice.step.operand.value == 1:
+                it, backwards = it.value, not backwards
+            else:
+                return it, backwards
 
     @staticmethod
     def _is_subexpr_nodes(it):
